@@ -153,7 +153,9 @@ def check(ctx):
             n_sites += 1
             owner = fn.path.split("::{closure")[0]
             short = c.path.split("::")[-1]
-            rk = [k for k in ROWS if owner.endswith(k[0]) and k[1] == short]
+            # `for x in &map` (IntoIterator::into_iter) and `map.iter()` are the same iteration
+            same = {"iter": ("iter", "into_iter"), "into_iter": ("iter", "into_iter")}.get(short, (short,))
+            rk = [k for k in ROWS if owner.endswith(k[0]) and k[1] in same]
             if not rk:
                 ctx.violation("R-REACH", "hash-iter:%s|%s" % (owner, short), "new iteration over a hash-ordered collection (%s on %s) in %s at %s: its sink has not been classified as order-insensitive"
                               % (short, recv[:60], fn.path, c.loc()), {"loc": c.loc()})
